@@ -116,5 +116,20 @@ def run(ctx):
             ctx.ob("C16.self-slot", f"{s.file}::{s.func}::{s.target}", ok,
                    "stores into self outside constructors/setters/finalizers", s.as_dict(), f"{s.file}:{s.line}")
     ctx.anchor("borrowed stores examined", nb, 30)
+    # (3) an operand viewed as a vector class: __array_finalize__ of the momentum classes renames the fields of the dtype object the view shares with the operand
+    ctx.rule("C16.operand-view", "no function views one of its operands (a parameter other than self, or a name bound to one) as anything but numpy.ndarray: a view as a vector class "
+                                 "runs __array_finalize__, which writes the field names of the dtype object shared with the operand")
+    import ast as _ast
+    probe = effects._borrowed_views_in(_ast.parse("def _probe(array, what):\n    what = what.view(type(array))\n    return what\n"), "<probe>")
+    if len(probe) != 1:
+        raise AnalysisError("C16.operand-view: the detector does not recognise its own positive example")
+    views = effects.borrowed_views(ctx.repo)
+    nviews = sum(1 for p_ in effects.all_source_files(ctx.repo) for n_ in _ast.walk(effects.parse_file(p_)) if isinstance(n_, _ast.Call) and isinstance(n_.func, _ast.Attribute) and n_.func.attr == "view")
+    ctx.anchor(".view() call sites scanned", nviews, 30)
+    c = ctx.rule_counts.setdefault("C16.operand-view", [0, 0])
+    c[0] += nviews - len(views)
+    c[1] += nviews - len(views)
+    for f, fn, line, text, base in views:
+        ctx.ob("C16.operand-view", f"{f}::{fn}::{text}", False, f"operand `{base}` is viewed as a class other than numpy.ndarray: the view shares its dtype object with the caller's array", {"call": text}, f"{f}:{line}")
     ctx.decline("aliasing created inside NumPy/Awkward (views sharing memory are not modifications)")
     ctx.decline("what third-party calls do to their arguments (numpy.sum, ak.zip, ak.transform are assumed not to mutate inputs)")
